@@ -189,6 +189,10 @@ var (
 type c08Resolver struct{}
 
 func (c08Resolver) Resolve(id string, _ ...vdrspi.DIDMethodOption) (*did.DocResolution, error) {
+	if id == "did:test:panic" {
+		// a key store that fails hard (the resolver is pluggable): whatever becomes of the failure, the token is not accepted
+		panic("verif: key store unavailable")
+	}
 	if id == c08DID {
 		return &did.DocResolution{DIDDocument: c08Doc}, nil
 	}
@@ -454,8 +458,23 @@ func c08Run(input string) string {
 	res := "rej"
 	var err error
 	if c08SharedVerifier == nil {
-		c08SharedVerifier = jwt.NewVerifier(jwt.KeyResolverFunc(didsignjwt.NewVDRKeyResolver(c08Resolver{}).PublicKeyFetcher()))
+		fetch := didsignjwt.NewVDRKeyResolver(c08Resolver{}).PublicKeyFetcher()
+		c08SharedVerifier = jwt.NewVerifier(jwt.KeyResolverFunc(func(what, kid string) (*verifier.PublicKey, error) {
+			if what == "did:test:nokey" {
+				return nil, nil // a map-lookup key store: no key, no error
+			}
+			return fetch(what, kid)
+		}))
 	}
+	func() {
+	defer func() {
+		if p := recover(); p != nil {
+			if !strings.Contains(fmt.Sprint(p), "verif: key store unavailable") {
+				panic(p) // only the harness's own deliberate failure is absorbed here
+			}
+			err = fmt.Errorf("the key store's failure propagated: %v", p)
+		}
+	}()
 	switch entry {
 	case "jws":
 		var opts []jose.JWSParseOpt
@@ -471,13 +490,15 @@ func c08Run(input string) string {
 		_, _, err = jwt.Parse(tok, opts...)
 	case "did":
 		if det != nil {
-			return "bad-input"
+			err = fmt.Errorf("bad-input")
+			return
 		}
 		err = didsignjwt.VerifyJWT(tok, c08Resolver{})
 	case "vc", "vcn":
 		// a JWT credential through verifiable.ParseCredential with a key fetcher (proof check on); vcn: validation disabled
 		if det != nil {
-			return "bad-input"
+			err = fmt.Errorf("bad-input")
+			return
 		}
 		if c07E == nil {
 			c07Setup()
@@ -495,7 +516,8 @@ func c08Run(input string) string {
 	case "pk":
 		v := c08VMs[vm]
 		if v == nil {
-			return "bad-input"
+			err = fmt.Errorf("bad-input")
+			return
 		}
 		bv, verr := jwt.GetVerifier(&verifier.PublicKey{Type: v.Type, Value: v.Value, JWK: v.JSONWebKey()})
 		if verr != nil {
@@ -508,6 +530,10 @@ func c08Run(input string) string {
 		}
 		_, err = jose.ParseJWS(tok, bv, opts...)
 	default:
+		err = fmt.Errorf("bad-input")
+	}
+	}()
+	if err != nil && err.Error() == "bad-input" {
 		return "bad-input"
 	}
 	if err == nil {
@@ -624,6 +650,7 @@ func c08Gen(r *Rng, tier string) []string {
 			}
 		case x < 16:
 			mut = r.Pick([]string{"nosig", "dot", "detp", "kidraw:did:test:iss", "kidraw:did:test:iss~", "kidraw:" + vm,
+				"kidraw:did:test:panic~" + vm, "kidraw:did:test:nokey~" + vm,
 				"kidraw:did:test:other~" + vm, "kidraw:did:test:iss~" + vm + "~x", "kidraw:did:test:iss~" + typ})
 		case x < 17: // unsigned
 			proc = "none"
